@@ -28,7 +28,19 @@ def covers(maxc):
                 yield [list(c) for c in cov]
 
 
+BIG_COVERS = [
+    [list(range(8)), [0, 8]],                                   # sizes {2, 8}
+    [[0, 8], list(range(8))],
+    [list(range(9)), [0, 9, 10], [1, 9]],                        # sizes {2, 3, 9}
+    [list(range(10)), list(range(2, 10)), [0, 10]],              # sizes {2, 8, 10}
+    [[0, 1, 2], list(range(3, 11)), [2, 3]],
+    [list(range(1, 9)), [1, 9], [2, 9, 10]],                     # 1-based
+    [list(range(12)), [0, 12], [1, 12, 13, 14]],                 # sizes {2, 4, 12}
+]
+
+
 def instances(tier, seed):
+    yield {"covers": BIG_COVERS, "no_shift": True}
     maxc = 3 if tier == "quick" else 4
     batch = []
     for cov in covers(maxc):
@@ -104,7 +116,7 @@ def check_cover(cover, how):
 def run_instance(inst, tier):
     res = Result()
     for cover in inst["covers"]:
-        for shift in (0, 1):
+        for shift in ((0,) if inst.get("no_shift") else (0, 1)):
             cov = [[v + shift for v in c] for c in cover]
             sizes = sorted({len(c) for c in cov})
             for how in ("direct", "dispatch"):
